@@ -4,6 +4,7 @@
 import SV.Misc.AdapterProofs
 import SV.Misc.AdapterMore
 import SV.GenProofs.LRU
+import SV.FactsProofs.Unit
 namespace SV.Props.C17
 open SV SV.Adapter
 
@@ -49,5 +50,8 @@ theorem hasOrAdd_spills_before_dropping (V : Bytes → Bytes) (S : List Bytes) (
 /-! ### tie by translation: the source's own leaf logic (regenerated into SV/Generated/Funcs.lean on every run) IS the model's -/
 theorem source_eviction_test_is_the_models (c : LRU.Cap) :
     c.shouldEvict = Gen.lruShouldEvict c.entries.length c.cap c.bytes c.maxBytes := GenProofs.lruShouldEvict_eq c
+
+/-- (regenerated fact) the adapter's Put — memory-tier write and persisting of the reported victims — is one critical section -/
+theorem adapter_put_holds_the_lock_throughout : Facts.adapterPutSingleSection = true := Facts.adapter_put_is_single_section
 
 end SV.Props.C17
